@@ -27,9 +27,9 @@ C27 (two), C21, C19, C20, C23, C26 (the `..`-name fix, stream C26x), C29 (genera
 histories and all directed schedules); the SETATTR attribute fix (cfc0b38) is caught as a model mismatch by C04
 and as a status violation by C02's LOOKUP expectation.
 
-**Independently seeded changes.** Three rounds of fresh sub-agents, each given only the text of one property and
+**Independently seeded changes.** Four rounds of fresh sub-agents, each given only the text of one property and
 its own scratch worktree of `/repo` (nothing from `/verif`; later rounds were also told what the earlier ones
-had changed and asked for a different function, mechanism or clause), produced %d wrong changes - three per
+had changed and asked for a different function, mechanism, configuration or clause), produced %d wrong changes - four per
 property - that compile and keep the existing 1361-test suite green. Each was confirmed by
 `tools/confirm_seed.sh` (suite passes with the change, the agent's demonstration test fails with it and passes
 without it) and filed under `seeded/<Cxx-n>/` (`patch.diff`, `seed_demo_test.go`, `NOTES.md`, `meta.json`,
@@ -47,8 +47,12 @@ connections across policy or tuning updates, overlapping WRITEs, simultaneous al
 shutdown-held schedules, timed-out requests), (iii) the difference between the raw credential and the identity
 in force (squashing exports), (iv) boundary values of client-chosen numbers and names (2^63 cookies, 0xFFFFFFFD
 lengths, multi-byte names, tiny dircounts, record marks split across segments, nil task results, unmapped errno
-values), (v) backend conventions other than the primary test backend's (symlink size 0), (vi) drivers that died of
-the very panic they should have recorded.
+values), (v) backend conventions other than the primary test backend's (symlink size 0), (vi) the backend changing underneath the server (an external writer), (vii) drivers that died of the very panic, or hung
+on the very deadlock, they should have recorded. The share of changes missed at first did not fall from round to
+round (5, 11, 11 and 13 of 30): every round of independent changes exposed new blind spots of the generators,
+which is the honest measure of how much the sampled side of this machinery covers; the theorems are unaffected by
+it, and a change that invalidates a `Cxx_facts` obligation or the model correspondence is reported at least as a
+broken tie.
 
 ''' % (n, res['concrete'], res['noinput'], res['none'], n - len(strengthened), n, len(missed), len(tie_only)) + table + '\n\n'
 open('/verif/DESIGN.md', 'w').write(s[:i] + new + s[j:])
